@@ -90,6 +90,23 @@ pub enum Lg {
 	DecBytes { scale: u32, precision: u32 },
 	DecFixed { size: usize, scale: u32, precision: u32 },
 	Duration,
+	/// unknown logical type `custom-stamp` on `[u8; N]` (serde_bytes)
+	CustomFixed(usize),
+	/// the same attribute with the other spelling of its name (`TimeMicros` for `time-micros`, `uuid` for `Uuid`)
+	Alt(Box<Lg>),
+}
+
+impl Lg {
+	/// logical-type field of the generic shapes 3.. (`struct G<T> { a: T, f: <this> }`)
+	pub fn of_generic_shape(shape: usize) -> Option<Lg> {
+		match shape {
+			3 => Some(Lg::DecFixed { size: 4, scale: 1, precision: 5 }),
+			4 => Some(Lg::Duration),
+			5 => Some(Lg::CustomFixed(4)),
+			6 => Some(Lg::Alt(Box::new(Lg::Duration))),
+			_ => None,
+		}
+	}
 }
 
 /// What may stand at a field position (struct field, newtype field, variant payload)
@@ -131,7 +148,9 @@ pub enum Def {
 		variants: Vec<FieldTy>,
 		unit_at: Option<usize>,
 	},
-	/// 0: `struct G<T> { a: T, b: Vec<T> }`; 1: `struct G<T>(T)`; 2: `struct G<A, B> { a: A, b: B }`
+	/// 0: `struct G<T> { a: T, b: Vec<T> }`; 1: `struct G<T>(T)`; 2: `struct G<A, B> { a: A, b: B }`;
+	/// 3..=6: `struct G<T> { a: T, #[avro_schema(logical_type = ..)] f: .. }` where the attribute
+	/// makes the field own a named `fixed` (decimal on [u8; 4] / duration / custom / `Duration`)
 	Generic {
 		shape: usize,
 	},
@@ -239,24 +258,32 @@ impl<'p> Placed<'p> {
 			FieldTy::OptBytes => ("#[serde(with = \"serde_bytes\")] ".into(), "Option<Vec<u8>>".into()),
 			FieldTy::Fixed(n) => ("#[serde(with = \"serde_bytes\")] ".into(), format!("[u8; {n}]")),
 			FieldTy::BBytes => ("#[serde(with = \"serde_bytes\", borrow)] ".into(), format!("&{lt} [u8]")),
-			FieldTy::Logical(l) => match l {
-				Lg::Uuid => ("#[avro_schema(logical_type = \"Uuid\")] ".into(), "String".into()),
-				Lg::Date => ("#[avro_schema(logical_type = \"date\")] ".into(), "i32".into()),
-				Lg::TimeMillis => ("#[avro_schema(logical_type = \"time-millis\")] ".into(), "i32".into()),
-				Lg::TimeMicros => ("#[avro_schema(logical_type = \"time-micros\")] ".into(), "i64".into()),
-				Lg::TsMillis => ("#[avro_schema(logical_type = \"timestamp-millis\")] ".into(), "i64".into()),
-				Lg::TsMicros => ("#[avro_schema(logical_type = \"timestamp-micros\")] ".into(), "i64".into()),
-				Lg::DecImplicit { scale, precision } => (format!("#[avro_schema(scale = {scale}, precision = {precision})] "), "rust_decimal::Decimal".into()),
-				Lg::DecBytes { scale, precision } => (
-					format!("#[avro_schema(logical_type = \"decimal\", scale = {scale}, precision = {precision}, has_same_type_as = \"Vec<u8>\")] "),
-					"rust_decimal::Decimal".into(),
-				),
-				Lg::DecFixed { size, scale, precision } => (
-					format!("#[avro_schema(logical_type = \"decimal\", scale = {scale}, precision = {precision}, has_same_type_as = \"[u8; {size}]\")] "),
-					"rust_decimal::Decimal".into(),
-				),
-				Lg::Duration => ("#[avro_schema(logical_type = \"duration\")] #[serde(with = \"serde_bytes\")] ".into(), "[u8; 12]".into()),
-			},
+			FieldTy::Logical(l) => Self::logical_src(l, false),
+		}
+	}
+
+	fn logical_src(l: &Lg, alt: bool) -> (String, String) {
+		// the attribute accepts any spelling that PascalCases to the known name
+		let sp = |kebab: &str, pascal: &str| if alt { pascal.to_owned() } else { kebab.to_owned() };
+		match l {
+			Lg::Alt(inner) => Self::logical_src(inner, true),
+			Lg::Uuid => (format!("#[avro_schema(logical_type = \"{}\")] ", if alt { "uuid" } else { "Uuid" }), "String".into()),
+			Lg::Date => (format!("#[avro_schema(logical_type = \"{}\")] ", sp("date", "Date")), "i32".into()),
+			Lg::TimeMillis => (format!("#[avro_schema(logical_type = \"{}\")] ", sp("time-millis", "TimeMillis")), "i32".into()),
+			Lg::TimeMicros => (format!("#[avro_schema(logical_type = \"{}\")] ", sp("time-micros", "TimeMicros")), "i64".into()),
+			Lg::TsMillis => (format!("#[avro_schema(logical_type = \"{}\")] ", sp("timestamp-millis", "TimestampMillis")), "i64".into()),
+			Lg::TsMicros => (format!("#[avro_schema(logical_type = \"{}\")] ", sp("timestamp-micros", "TimestampMicros")), "i64".into()),
+			Lg::DecImplicit { scale, precision } => (format!("#[avro_schema(scale = {scale}, precision = {precision})] "), "rust_decimal::Decimal".into()),
+			Lg::DecBytes { scale, precision } => (
+				format!("#[avro_schema(logical_type = \"{}\", scale = {scale}, precision = {precision}, has_same_type_as = \"Vec<u8>\")] ", sp("decimal", "Decimal")),
+				"rust_decimal::Decimal".into(),
+			),
+			Lg::DecFixed { size, scale, precision } => (
+				format!("#[avro_schema(logical_type = \"{}\", scale = {scale}, precision = {precision}, has_same_type_as = \"[u8; {size}]\")] ", sp("decimal", "Decimal")),
+				"rust_decimal::Decimal".into(),
+			),
+			Lg::Duration => (format!("#[avro_schema(logical_type = \"{}\")] #[serde(with = \"serde_bytes\")] ", sp("duration", "Duration")), "[u8; 12]".into()),
+			Lg::CustomFixed(n) => ("#[avro_schema(logical_type = \"custom-stamp\")] #[serde(with = \"serde_bytes\")] ".into(), format!("[u8; {n}]")),
 		}
 	}
 
@@ -268,14 +295,20 @@ impl<'p> Placed<'p> {
 			FieldTy::OptBytes => ("rt::opt_bytes_values()".into(), "rt::desc_opt_bytes($x, o);".into()),
 			FieldTy::Fixed(n) => (format!("rt::fixed_values::<{n}>()"), "rt::desc_bytes(&$x[..], o);".into()),
 			FieldTy::BBytes => ("rt::bbytes_values()".into(), "rt::desc_bytes($x, o);".into()),
-			FieldTy::Logical(l) => match l {
-				Lg::Uuid => ("rt::uuid_values()".into(), "Dom::describe($x, o);".into()),
-				Lg::Date | Lg::TimeMillis => ("<i32 as Dom>::values(rec)".into(), "Dom::describe($x, o);".into()),
-				Lg::TimeMicros | Lg::TsMillis | Lg::TsMicros => ("<i64 as Dom>::values(rec)".into(), "Dom::describe($x, o);".into()),
-				Lg::DecImplicit { scale, .. } | Lg::DecBytes { scale, .. } => (format!("rt::decimal_values({scale}, 12)"), "rt::desc_decimal($x, o);".into()),
-				Lg::DecFixed { size, scale, .. } => (format!("rt::decimal_values({scale}, {size})"), "rt::desc_decimal($x, o);".into()),
-				Lg::Duration => ("rt::fixed_values::<12>()".into(), "rt::desc_bytes(&$x[..], o);".into()),
-			},
+			FieldTy::Logical(l) => Self::logical_dom(l),
+		}
+	}
+
+	fn logical_dom(l: &Lg) -> (String, String) {
+		match l {
+			Lg::Alt(inner) => Self::logical_dom(inner),
+			Lg::Uuid => ("rt::uuid_values()".into(), "Dom::describe($x, o);".into()),
+			Lg::Date | Lg::TimeMillis => ("<i32 as Dom>::values(rec)".into(), "Dom::describe($x, o);".into()),
+			Lg::TimeMicros | Lg::TsMillis | Lg::TsMicros => ("<i64 as Dom>::values(rec)".into(), "Dom::describe($x, o);".into()),
+			Lg::DecImplicit { scale, .. } | Lg::DecBytes { scale, .. } => (format!("rt::decimal_values({scale}, 12)"), "rt::desc_decimal($x, o);".into()),
+			Lg::DecFixed { size, scale, .. } => (format!("rt::decimal_values({scale}, {size})"), "rt::desc_decimal($x, o);".into()),
+			Lg::Duration => ("rt::fixed_values::<12>()".into(), "rt::desc_bytes(&$x[..], o);".into()),
+			Lg::CustomFixed(n) => (format!("rt::fixed_values::<{n}>()"), "rt::desc_bytes(&$x[..], o);".into()),
 		}
 	}
 
@@ -626,6 +659,19 @@ impl<'p> Placed<'p> {
 						s.push_str(&format!("struct {id}<T>(T);\n"));
 						s.push_str(&format!("impl<T: Dom> Dom for {id}<T> {{\n\tfn values(rec: u32) -> Vec<Self> {{\n\t\t<T as Dom>::values(rec).into_iter().map({id}).collect()\n\t}}\n"));
 						s.push_str("\tfn describe(&self, o: &mut String) {\n\t\to.push_str(\"{\\\"nt\\\":\");\n\t\tDom::describe(&self.0, o);\n\t\to.push('}');\n\t}\n}\n");
+					}
+					sh if Lg::of_generic_shape(*sh).is_some() => {
+						let lg = FieldTy::Logical(Lg::of_generic_shape(*sh).unwrap());
+						let (a, t) = self.field_src(&lg, "'static");
+						let (vals, desc) = self.field_dom(&lg);
+						s.push_str(&format!("struct {id}<T> {{\n\ta: T,\n\t{a}f: {t},\n}}\n"));
+						s.push_str(&format!(
+							"impl<T: Dom> Dom for {id}<T> {{\n\tfn values(rec: u32) -> Vec<Self> {{\n\t\tlet d0 = <T as Dom>::values(rec);\n\t\tlet d1 = {vals};\n\t\tlet mut out = Vec::new();\n\t\tfor ix in rt::tuples(&[d0.len(), d1.len()]) {{\n\t\t\tout.push({id} {{ a: d0[ix[0]].clone(), f: d1[ix[1]].clone() }});\n\t\t}}\n\t\tout\n\t}}\n"
+						));
+						s.push_str(&format!(
+							"\tfn describe(&self, o: &mut String) {{\n\t\to.push_str(\"{{\\\"rec\\\":[[\\\"a\\\",\");\n\t\tDom::describe(&self.a, o);\n\t\to.push_str(\"],[\\\"f\\\",\");\n\t\t{}\n\t\to.push_str(\"]]}}\");\n\t}}\n}}\n",
+							desc.replace("$x", "&self.f")
+						));
 					}
 					_ => {
 						s.push_str(&format!("struct {id}<A, B> {{\n\ta: A,\n\tb: B,\n}}\n"));
